@@ -1526,7 +1526,13 @@ static void measure(int o) {
 		if (pass == 1) { b->N = r.n; b->rc = r.rc; vb_reset(&b->out); vb_putvb(&b->out, &r.out); }
 		if (pass == 2 && (r.n != b->N || !same(&r, b))) vf_harness_error("operation %s is not deterministic: N %ld vs %ld, rc 0x%x vs 0x%x", op->name, r.n, b->N, r.rc, b->rc);
 	}
-	if (b->rc != KSI_OK) vf_harness_error("operation %s fails without any fault: 0x%x (digest %s)", op->name, b->rc, dig(&b->out));
+	if (b->rc != KSI_OK) {
+		/* nothing to compare a faulted run with: the operation is left out, the others are still enumerated */
+		vf_soft_error("operation %s fails without any fault: 0x%x (digest %s)", op->name, b->rc, dig(&b->out));
+		b->measured = -1; b->N = 0;
+		vb_free(&r.out); vb_free(&rep.out);
+		return;
+	}
 	if (!same(&rep, b)) vf_harness_error("operation %s is not repeatable on the same context without a fault: rc 0x%x vs 0x%x, digest %zu vs %zu bytes", op->name, rep.rc, b->rc, rep.out.n, b->out.n);
 	if (b->N <= 0) vf_harness_error("operation %s makes no SDK allocation", op->name);
 	b->stride = (b->N + cap - 1) / cap;
@@ -1594,6 +1600,7 @@ static void run(void) {
 		long lo, i, j, width;
 		if (only && strcmp(only, op->name) != 0) continue;
 		if (!b->measured) measure(o);
+		if (b->measured < 0) continue;
 		if (getenv("C19_LIST")) fprintf(stderr, "%-32s N=%ld stride=%ld\n", op->name, b->N, b->stride);
 		width = CHUNK * b->stride;
 		for (lo = 1; lo <= b->N; lo += width) {
